@@ -123,13 +123,15 @@ const (
 
 // Setup says how to start a row.
 type Setup struct {
-	Env   *Env
-	Kind  SrcKind
-	Word  []h.Ev
-	Mode  h.Mode
-	Ctx   context.Context // nil: plain Subscribe
-	Rec   *h.Rec
-	Inner func(r *h.Rec) // called for every inner recorder a higher-order row creates
+	Env  *Env
+	Kind SrcKind
+	Word []h.Ev
+	// WordFn, if set, replaces Word: the script source asks it at every subscription.
+	WordFn func() []h.Ev
+	Mode   h.Mode
+	Ctx    context.Context // nil: plain Subscribe
+	Rec    *h.Rec
+	Inner  func(r *h.Rec) // called for every inner recorder a higher-order row creates
 }
 
 // Live is a started pipeline.
@@ -179,7 +181,11 @@ func start[T, R any](mk func(e *Env) Op[T, R], s Setup) *Live {
 		obs = o
 		l.Emit = p.Emit
 	default:
-		obs = h.Script[T](src, s.Mode, s.Word)
+		if s.WordFn != nil {
+			obs = h.ScriptFn[T](src, s.Mode, s.WordFn)
+		} else {
+			obs = h.Script[T](src, s.Mode, s.Word)
+		}
 	}
 	env := s.Env
 	if env == nil {
